@@ -43,7 +43,9 @@ let () =
                     c_inst1 = []; c_inst2 = []; c_manuf = (if get "noconf" "0" = "1" then [] else str_bytes "NMEA2000 library, https://github.com/ttlappalainen/NMEA2000"); c_inst_changed = false } in
        (* conf=<hex inst1>,<hex inst2>,<hex manufacturer>: the application called SetConfigurationInformation (- = empty string) *)
        (* pconf= (SetProgmemConfigurationInformation with strings of at most 70 characters) leaves the node with the same strings and payload *)
-       let rcfg = match (try Some (List.assoc "conf" kv) with Not_found -> (try Some (List.assoc "pconf" kv) with Not_found -> None)) with
+       (* both given: the later call counts - conf, or with cthenp=1 the constant strings of pconf *)
+       let rcfg = match (if get "cthenp" "0" = "1" && List.mem_assoc "pconf" kv then Some (List.assoc "pconf" kv) else
+                           try Some (List.assoc "conf" kv) with Not_found -> (try Some (List.assoc "pconf" kv) with Not_found -> None)) with
          | Some c -> (match String.split_on_char ',' c with
              (* ~ = null pointer: an omitted string is sent as an empty one; with all three omitted there is no configuration information at all *)
              | ["~"; "~"; "~"] -> { rcfg with c_confinfo = []; c_inst1 = []; c_inst2 = []; c_manuf = [] }
@@ -98,7 +100,19 @@ let () =
            | ["L"; which; l] -> Some (XApi (ASetPgnList (z_of_string which, plist (if l = "-" then "" else l))))
            | _ -> (match base_op s with Some o -> Some (XBase o) | None -> None)) opstrs in
        let nonempty = List.map (fun s -> split s <> []) opstrs in
-       let (r, evs) = xrun gf_lib r0 (List.filter_map (fun x -> x) ops) in
+       (* onopen=<interval>,<offset>: the application's OnOpen callback - the last thing Open() does - calls SetHeartbeatIntervalAndOffset:
+          the same run, with that setter applied right after the operation in which the node opens (xrun is this fold without it) *)
+       let onopen = match String.split_on_char ',' (get "onopen" "") with [a; b] -> Some (z_of_string a, z_of_string b) | _ -> None in
+       let opsl = List.filter_map (fun x -> x) ops in
+       let (r, evs) = match onopen with
+         | None -> xrun gf_lib r0 opsl
+         | Some (iv, off) ->
+           let (r, acc) = List.fold_left (fun (r, acc) o ->
+               let (r1, ev) = xstep gf_lib r o in
+               let opened = List.exists (function EvNote c -> int_of_z c = 1 | _ -> false) ev in
+               let r2 = if opened then fst (xstep gf_lib r1 (XBase (RSetHeartbeat (iv, off, zi (-1))))) else r1 in
+               (r2, ev :: acc)) (r0, []) opsl in
+           (r, List.rev acc) in
        if r.r_oob then print_string "oob" else begin
        let rec pr first ops ne evs = match ops, ne with
          | [], _ -> ()
